@@ -109,17 +109,17 @@ def do_replay(chk, binp, path):
     with open(path) as f:
         rp = json.load(f)
     obs = rp["replay"]["observation"]
-    if obs["ev"] != "RuleStr":
-        raise core.ToolError("only RuleStr observations can be replayed from a stored case (ParseStr lines are regenerated "
-                             "from VERIF_SEED)")
     case = chk.path("replay_case.ndjson")
     with open(case, "w") as f:
-        f.write(json.dumps({"id": 0, "rule": obs["rule"]}) + "\n")
+        if obs["ev"] == "ParseStr":
+            f.write(json.dumps({"id": 0, "s": obs["s"], "style": obs.get("style", 0)}) + "\n")
+        else:
+            f.write(json.dumps({"id": 0, "rule": obs["rule"]}) + "\n")
     out_p = chk.path("replay_obs.ndjson")
     core.run_bin(binp, ["rulestr-obs", case, out_p])
     out, lines = rm.validate(chk, "RuleStrCheck", out_p, shards=1, tags=("MISMATCH", "NOTE"))
     classify(chk, out["MISMATCH"], lines)
     chk.cov["evaluations"] = 1
     o = json.loads(lines[0])
-    chk.sample({"rule": rm.text(o["rule"]), "to_string": o.get("text")})
+    chk.sample({"rule": rm.text(o.get("rule") or o.get("r1")), "string": o.get("text")})
     return chk.finish()
